@@ -72,9 +72,11 @@ pub fn rich_objects() -> Vec<(u64, Val)> {
             ("ExtGState", Val::dict(vec![("GS1", Val::dict(vec![("Type", Val::name("ExtGState")), ("LW", Val::Int(2)), ("CA", Val::real("0.5"))]))])),
             ("ColorSpace", Val::dict(vec![("CS1", Val::Array(vec![Val::name("Indexed"), Val::name("DeviceRGB"), Val::Int(1), Val::Str(vec![0, 0, 0, 255, 255, 255])])), ("CS2", Val::Array(vec![Val::name("ICCBased"), Val::r(35)]))])),
             ("Pattern", Val::dict(vec![("P1", Val::r(36))])),
+            ("Shading", Val::dict(vec![("Sh1", Val::dict(vec![("ShadingType", Val::Int(2)), ("ColorSpace", Val::name("DeviceRGB")), ("Coords", Val::ints(&[0, 0, 1, 1])), ("Function", Val::dict(vec![("FunctionType", Val::Int(2)), ("Domain", Val::ints(&[0, 1])), ("C0", Val::ints(&[0, 0, 0])), ("C1", Val::ints(&[1, 1, 1])), ("N", Val::Int(1))]))]))])),
+            ("Properties", Val::dict(vec![("MC0", Val::dict(vec![("Kind", Val::name("Layer"))]))])),
         ]),
     ));
-    let content_a = b"q 1 0 0 1 72 700 cm BT /F1 12 Tf 14 TL (Hello) Tj T* [(Wor) -20 (ld)] TJ ET Q\n/GS1 gs /CS1 cs 1 sc 10 10 100 50 re f\nq 50 0 0 50 100 100 cm /Im1 Do Q\n/Fm1 Do\nBI /W 2 /H 2 /CS /G /BPC 8 ID \x00\x55\xaa\xff EI\n0.5 g 1 0 0 RG 0 0 m 10 10 l 20 20 30 30 40 40 c h S\n".to_vec();
+    let content_a = b"q 1 0 0 1 72 700 cm BT /F1 12 Tf 14 TL (Hello) Tj T* [(Wor) -20 (ld)] TJ ET Q\n/GS1 gs /CS1 cs 1 sc 10 10 100 50 re f\nq 50 0 0 50 100 100 cm /Im1 Do Q\n/Fm1 Do\nBI /W 2 /H 2 /CS /G /BPC 8 ID \x00\x55\xaa\xff EI\n0.5 g 1 0 0 RG 0 0 m 10 10 l 20 20 30 30 40 40 c h S\n/Sh1 sh /OC /MC0 BDC EMC\n".to_vec();
     o.push((6, Val::stream(vec![], content_a)));
     o.push((7, Val::stream(vec![("Filter", Val::name("FlateDecode"))], pf::flate_encode(b"BT /F2 10 Tf <00010002> Tj ", pf::FlateStyle::ZlibDefault))));
     o.push((8, Val::stream(vec![("Filter", Val::Array(vec![Val::name("ASCII85Decode")]))], pf::a85_encode(b"ET\n/P1 scn 0 0 5 5 re B\n", pf::A85Style::Lines))));
